@@ -784,6 +784,16 @@ func calleeShortName(c *ssa.CallCommon) string {
 	if b, ok := c.Value.(*ssa.Builtin); ok {
 		return b.Name()
 	}
+	// a call through a function-valued struct field (cs.forkCallback(...)) is named after the field
+	if u, ok := c.Value.(*ssa.UnOp); ok {
+		if fa, ok := u.X.(*ssa.FieldAddr); ok {
+			if pt, ok := types.Unalias(fa.X.Type()).Underlying().(*types.Pointer); ok {
+				if s, ok := types.Unalias(pt.Elem()).Underlying().(*types.Struct); ok && fa.Field < s.NumFields() {
+					return s.Field(fa.Field).Name()
+				}
+			}
+		}
+	}
 	return "dynamic"
 }
 
